@@ -82,6 +82,17 @@ func (s scen) argsSource() string {
 		// every wait() on a failed thread raises its error: also after another waiter has caught it, whichever
 		// way that waiter called wait (the method value handed to try, or a call inside a function)
 		return "func boom(a, b) { return [a][b] }\n" + start("boom", "1, 5", "t") + "r1 := try(t.wait, func(e) { return \"caught1\" })\nr2 := try(func() { return t.wait() }, func(e) { return \"caught2\" })\nr3 := try(t.wait, func(e) { return \"caught3\" })\ngot(\"w\", [r1, r2, r3])\n\"done\"\n"
+	case "panic-frames", "panic-operands", "panic-builtin":
+		// the spawned call ends in a Go panic - it runs out of frames, out of operand stack, or a builtin panics:
+		// that is the call's error, wait() raises it (every time) and a result is never invented
+		def, fn, args := "func deep(a, b) { return 1 + deep(a, b) }\n", "deep", "1, 5"
+		switch s.Args {
+		case "panic-operands":
+			def, fn = "func wide(a, b) { return ["+strings.Repeat("a, ", 1100)+"b] }\n", "wide"
+		case "panic-builtin":
+			def, fn, args = "", "chan", "-1"
+		}
+		return def + start(fn, args, "t") + "r1 := try(func() { return " + wait("t") + " }, func(e) { return \"caught1\" })\nr2 := try(t.wait, func(e) { return \"caught2\" })\ngot(\"w\", [r1, r2])\n\"done\"\n"
 	case "error":
 		// wait() returns the spawned call's error
 		return "func boom(a, b) { return [a][b] }\n" + start("boom", "1, 5", "t") + "r := try(func() { return " + wait("t") + " }, func(e) { return \"caught\" })\ngot(\"w\", r)\n\"done\"\n"
@@ -204,6 +215,9 @@ func (s scen) judge(x *dsched.Exec, st *state) (violation, key string) {
 			"wide-helper":      `"n":[10, 20, 30] "w":[12, 22, 32]`,
 			"nested-spawn":     `"n":7 "w":14`,
 			"nested-go":        `"w":5 "n":[1, 2]`,
+			"panic-frames":     `"w":["caught1", "caught2"]`,
+			"panic-operands":   `"w":["caught1", "caught2"]`,
+			"panic-builtin":    `"w":["caught1", "caught2"]`,
 		}[s.Args]
 		if s.Args == "error" && s.Spawn == "go" {
 			// the go statement has no handle: the error of the spawned call is not observable through wait()
@@ -311,6 +325,8 @@ func scenarios(thorough bool) []scen {
 		out = append(out, scen{Spawn: sp, Args: "nested-spawn"}, scen{Spawn: sp, Args: "nested-go"})
 	}
 	out = append(out, scen{Spawn: "spawn", Args: "error-wait-twice"}, scen{Spawn: "fnspawn", Args: "error-wait-twice"})
+	out = append(out, scen{Spawn: "spawn", Args: "panic-frames"}, scen{Spawn: "fnspawn", Args: "panic-frames"}, scen{Spawn: "spawn", Args: "panic-operands"},
+		scen{Spawn: "fnspawn", Args: "panic-operands"}, scen{Spawn: "spawn", Args: "panic-builtin"})
 	if !thorough {
 		for _, sr := range [][2]int{{1, 1}, {1, 2}, {2, 1}} {
 			for _, b := range []int{0, 1} {
